@@ -298,6 +298,28 @@ fn part_c_plugins(rep: &Reporter) -> J {
                 let user = doc.defs.iter_mut().find(|d| d.name_str() == "User" && !d.ext).unwrap();
                 user.dirs.push(dir("model", vec![("type", Value::Str(P::default(), "import('x').U".into()))]));
             }
+            for with_namesakes in [false, true] {
+            let mut doc = doc.clone();
+            if with_namesakes {
+                // types of every kind named like the directives plugins and nitrogql itself own
+                let mut e = TsDef::new(TsKind::Enum, Some("model"));
+                e.values = vec![EnumValDef { desc: None, name: nm("A"), dirs: vec![] }];
+                doc.defs.push(e);
+                doc.defs.push(TsDef::new(TsKind::Scalar, Some("nitrogql_ts_type")));
+                let mut i = TsDef::new(TsKind::Input, Some("deprecated"));
+                i.input_fields = vec![InputValueDef { desc: None, p: P::default(), name: nm("model"), ty: Ty::named("model"), default: None, dirs: vec![] }];
+                doc.defs.push(i);
+                let mut u = TsDef::new(TsKind::Union, Some("include"));
+                u.members = vec![nm("Post")];
+                doc.defs.push(u);
+                let mut it = TsDef::new(TsKind::Interface, Some("skip"));
+                it.fields = vec![FieldDef { desc: None, name: nm("model"), args: None, ty: Ty::named("model"), dirs: vec![] }];
+                doc.defs.push(it);
+                let post = doc.defs.iter_mut().find(|d| d.name_str() == "Post" && !d.ext).unwrap();
+                post.fields.push(FieldDef { desc: None, name: nm("model"), args: Some(vec![InputValueDef { desc: None, p: P::default(), name: nm("by"), ty: Ty::named("deprecated"), default: None, dirs: vec![] }]), ty: Ty::named("model"), dirs: vec![] });
+                post.fields.push(FieldDef { desc: None, name: nm("raw"), args: None, ty: Ty::named("nitrogql_ts_type"), dirs: vec![] });
+                post.fields.push(FieldDef { desc: None, name: nm("inc"), args: None, ty: Ty::named("include"), dirs: vec![] });
+            }
             let schema_text = ts_text(&doc);
             let mut y = String::from("schema: ./schema.graphql\ndocuments: ./ops/*.graphql\nextensions:\n  nitrogql:\n");
             if !plugins.is_empty() {
@@ -306,7 +328,7 @@ fn part_c_plugins(rep: &Reporter) -> J {
                     y.push_str(&format!("      - \"{p}\"\n"));
                 }
             }
-            y.push_str("    generate:\n      schemaOutput: ./g/schema.d.ts\n      resolversOutput: ./g/resolvers.d.ts\n      serverGraphqlOutput: ./g/server.ts\n      type:\n        scalarTypes:\n          Version: string\n");
+            y.push_str("    generate:\n      schemaOutput: ./g/schema.d.ts\n      resolversOutput: ./g/resolvers.d.ts\n      serverGraphqlOutput: ./g/server.ts\n      type:\n        scalarTypes:\n          Version: string\n          nitrogql_ts_type: string\n");
             let mut p = Project::default();
             p.files.insert("schema.graphql".into(), schema_text.clone());
             p.files.insert("ops/q.graphql".into(), "query Q { kind }\n".into());
@@ -316,7 +338,7 @@ fn part_c_plugins(rep: &Reporter) -> J {
             let args: Vec<String> = ["--config-file", "graphql.config.yaml", "--output-format", "json", "generate"].iter().map(|s| s.to_string()).collect();
             let r = cli::run(&dirp, &args, &[], Duration::from_secs(30));
             runs += 1;
-            let case = |extra: J| json!({"part": "C", "plugins": plugins, "model_directive_used": with_model_use, "files": [schema_text], "config": y, "detail": extra});
+            let case = |extra: J| json!({"part": "C", "plugins": plugins, "model_directive_used": with_model_use, "types_named_like_directives": with_namesakes, "files": [schema_text], "config": y, "detail": extra});
             if r.code != Some(0) {
                 rep.report(Violation { key: "plugins.generate_fails".into(), what: format!("generate exits with {:?} on a valid project with plugins {plugins:?}", r.code), case: case(json!({"stdout": r.stdout, "stderr": r.stderr})) });
                 continue;
@@ -366,6 +388,7 @@ fn part_c_plugins(rep: &Reporter) -> J {
                 if !want.contains_key(k) {
                     rep.report(Violation { key: format!("plugins.definition_invented:{}", k.0.kw()), what: format!("{} {} appears in the server schema but not in the schema", k.0.kw(), k.1), case: case(json!({})) });
                 }
+            }
             }
         }
     }
